@@ -6,7 +6,6 @@ import (
 	"bytes"
 	"fmt"
 	"os"
-	"path/filepath"
 	"regexp"
 	"sort"
 	"strconv"
@@ -40,6 +39,9 @@ type c05Case struct {
 	NoInlines bool   `json:"noinlines,omitempty"`
 	Strategy  string `json:"kept_strategy,omitempty"`
 	Query     string `json:"query,omitempty"` // web level: URL query of the /top request
+	// report / cli level: Options.SourcePath / Options.TrimPath (-source_path / -trim_path)
+	SourcePath string `json:"source_path,omitempty"`
+	TrimPath   string `json:"trim_path,omitempty"`
 }
 
 func frac(num, den int64) float64 {
@@ -379,7 +381,7 @@ func c05Tree(c *Ctx, cs *c05Case) {
 			w.tok(infoTok(ni))
 		}
 	}
-	clean := cleanTable(p0, filepath.Clean)
+	clean := cleanTable(p0, c04PathFn)
 	reply := c.Drv.Ask("trim.tree " + w.String() + " " + q2.tokens(nil, false, clean, cs.Profile))
 	thm := "correspondence TrimTree.trimNewTree ~ Graph.TrimTree (theorems trimTree_*)"
 	parts := strings.Split(reply, " ;; ")
@@ -662,7 +664,8 @@ func c05ReportOptions(cs *c05Case, p *profile.Profile) *report.Options {
 	q := &cs.Req
 	ro := &report.Options{OutputFormat: c04Formats[cs.Format], CallTree: q.CallTree, CumSort: cs.CumSort, SampleValue: valueAt(q.VI),
 		SampleType: p.SampleType[q.VI].Type, SampleUnit: "count", OutputUnit: "minimum", Ratio: 1,
-		NodeCount: cs.NodeCount, NodeFraction: frac(cs.FracNum, cs.FracDen), EdgeFraction: frac(cs.EdgeNum, cs.EdgeDen)}
+		NodeCount: cs.NodeCount, NodeFraction: frac(cs.FracNum, cs.FracDen), EdgeFraction: frac(cs.EdgeNum, cs.EdgeDen),
+		SourcePath: cs.SourcePath, TrimPath: cs.TrimPath}
 	if q.Mean {
 		ro.SampleMeanDivisor = valueAt(0)
 	}
@@ -673,6 +676,7 @@ func c05ReportOptions(cs *c05Case, p *profile.Profile) *report.Options {
 }
 
 func c05Report(c *Ctx, cs *c05Case) {
+	defer c05UsePaths(cs)()
 	p, err := ParseCanon(cs.Profile)
 	if err != nil {
 		c.Res.HarnessError = err.Error()
@@ -826,10 +830,17 @@ func (cs *c05Case) cliArgs(file string) []string {
 		args = append(args, "-cum")
 	}
 	args = append(args, "-sample_index="+strconv.Itoa(cs.Req.VI))
+	if cs.SourcePath != "" {
+		args = append(args, "-source_path="+cs.SourcePath)
+	}
+	if cs.TrimPath != "" {
+		args = append(args, "-trim_path="+cs.TrimPath)
+	}
 	return append(args, file)
 }
 
 func c05CLICheck(c *Ctx, cs *c05Case, res cliResult) {
+	defer c05UsePaths(cs)()
 	peekEmpty := false
 	if res.err != nil && cs.Format == "peek" && strings.Contains(string(res.errOut), "no matches found for regexp") {
 		peekEmpty = true
@@ -942,7 +953,7 @@ func c05PickKept(r *Rng, strategy string, g *graph.Graph, order []*graph.Node) [
 var c05KeptStrategies = []string{"random", "remove-leaves", "remove-roots", "remove-middles", "remove-one", "remove-all", "keep-one", "cutoff", "top-n"}
 
 func runC05(c *Ctx) {
-	c.Res.Rule = "profiles as for C04 (9 stack-shape strategies, small values so that fraction products are exact) × (a) graph.New rebuilt with a kept set chosen by 9 strategies (random, remove leaves / roots / chain middles / one / all, keep one, cum cutoff, top-N) — shown figures vs the untrimmed graph.New and vs the Lean Spec under K incl. residual weights and marks, model correspondence; (b) TrimTree on call trees with kept pointer sets — direct oracle (kept nodes only, figures unchanged, every edge comes from an ancestor and is residual iff it bypasses a node, no edge to a removed node, In/Out agree), vs Lean Spec on path keys, and correspondence with the Lean model of TrimTree (In and Out maps of every listed node, node order as in Go, unlisted all-zero nodes included); (c) report.Generate text/tree/topproto/dot with nodecount × nodefraction × edgefraction × sort grids — shown rows ⊆ untrimmed rows, selection = Lean Trim model, legend 'accounting for' = Σ shown flat, dot residual marks vs Spec under the survivor set, no dangling edges; (c2) tree / text / peek reports with nodecount chosen relative to the measured counts N (entries of the untrimmed graph) and S (survivors of the nodefraction cut): nodecount ∈ {S−1, S, S+1, (S+N)/2, N−1, N, N+1}, fraction preferring 0<S<N; for tree/peek (all levels) the complete caller/callee context of every shown entry = Lean Spec under the shown set minus edges below the edge cutoff (no removed entry is named, bypass edges present); (d) the same through the pprof CLI (text, tree, dot, topproto; -peek switches trimming off in the driver, so peek under trimming is exercised in-process only). (e) web UI: /top of the web interface (HTTPServer hook) on one or two profiles per run with more entries than every built-in limit (300–900 functions; the view forces nodecount 500) with nf/n/sort/si URL parameters — on the SERVED rows and header: legend 'accounting for' = Σ flat of the rows served, rows = Lean Trim selection with the Lean Spec's untrimmed figures, 'Showing top N nodes out of M' present iff rows were cut (N, M checked); plus CLI -text on the same profiles with -nodecount 499/500/501/entries±1/80. non-trivial = the trimming removed at least one entry; distinct by canonical profile + options"
+	c.Res.Rule = "profiles as for C04 (9 stack-shape strategies, small values so that fraction products are exact) × (a) graph.New rebuilt with a kept set chosen by 9 strategies (random, remove leaves / roots / chain middles / one / all, keep one, cum cutoff, top-N) — shown figures vs the untrimmed graph.New and vs the Lean Spec under K incl. residual weights and marks, model correspondence; (b) TrimTree on call trees with kept pointer sets — direct oracle (kept nodes only, figures unchanged, every edge comes from an ancestor and is residual iff it bypasses a node, no edge to a removed node, In/Out agree), vs Lean Spec on path keys, and correspondence with the Lean model of TrimTree (In and Out maps of every listed node, node order as in Go, unlisted all-zero nodes included); (c) report.Generate text/tree/topproto/dot with nodecount × nodefraction × edgefraction × sort grids — shown rows ⊆ untrimmed rows, selection = Lean Trim model, legend 'accounting for' = Σ shown flat, dot residual marks vs Spec under the survivor set, no dangling edges; (c2) tree / text / peek reports with nodecount chosen relative to the measured counts N (entries of the untrimmed graph) and S (survivors of the nodefraction cut): nodecount ∈ {S−1, S, S+1, (S+N)/2, N−1, N, N+1}, fraction preferring 0<S<N; for tree/peek (all levels) the complete caller/callee context of every shown entry = Lean Spec under the shown set minus edges below the edge cutoff (no removed entry is named, bypass edges present); (d) the same through the pprof CLI (text, tree, dot, topproto; -peek switches trimming off in the driver, so peek under trimming is exercised in-process only). (e) web UI: /top of the web interface (HTTPServer hook) on one or two profiles per run with more entries than every built-in limit (300–900 functions; the view forces nodecount 500) with nf/n/sort/si URL parameters — on the SERVED rows and header: legend 'accounting for' = Σ flat of the rows served, rows = Lean Trim selection with the Lean Spec's untrimmed figures, 'Showing top N nodes out of M' present iff rows were cut (N, M checked); plus CLI -text on the same profiles with -nodecount 499/500/501/entries±1/80. (f) text/tree reports (in-process and CLI) with source_path / trim_path on profiles whose file names repeat a path component equal to the basename of a source_path directory or to a relative trim_path, at the granularities that keep file names (addresses, lines, filefunctions, files), nodecount 1, 2, N−1, (N+1)/2: expected entries = Lean Spec with the file-name table Clean(trimOnce(name)). non-trivial = the trimming removed at least one entry; distinct by canonical profile + options"
 	if c.Replay != "" {
 		var cs c05Case
 		if err := c.LoadReplay(&cs); err != nil {
@@ -1163,6 +1174,8 @@ func runC05(c *Ctx) {
 	tWeb := time.Now()
 	c05WebStream(c, &cliCases)
 	c05Debug("web stream: %v (generation before it: see total)", time.Since(tWeb))
+	// (f) reports with source_path / trim_path (file names are rewritten before every graph is built)
+	c05TrimPathStream(c, &cliCases)
 	results := make([]cliResult, len(cliCases))
 	var wg sync.WaitGroup
 	sem := make(chan struct{}, 12)
